@@ -620,10 +620,16 @@ func ParseScanCommand(cmd redcon.Command) (*Scan, error) {
 	for len(args) > 0 {
 		switch arg := strings.ToUpper(util.BytesToString(args[0])); arg {
 		case "MATCH":
+			if len(args) < 2 {
+				return nil, errors.New("syntax error")
+			}
 			s.SetMatch(util.BytesToString(args[1]))
 			args = args[2:]
 			continue
 		case "COUNT":
+			if len(args) < 2 {
+				return nil, errors.New("syntax error")
+			}
 			count, err := strconv.Atoi(util.BytesToString(args[1]))
 			if err != nil {
 				return nil, err
@@ -634,6 +640,8 @@ func ParseScanCommand(cmd redcon.Command) (*Scan, error) {
 		case "RC":
 			s.SetReplica()
 			args = args[1:]
+		default:
+			return nil, errors.New("syntax error")
 		}
 	}
 
